@@ -238,7 +238,7 @@ func doSelect(fr *frame, instr *ssa.Select) value {
 		rd = ready()
 	}
 	chosen := rd[0]
-	if len(rd) > 1 && fr.i.p != nil {
+	if len(rd) > 1 && fr.i.p != nil && !(fr.i.sched != nil && fr.i.sched.single) {
 		chosen = rd[fr.i.p.choose(fr, len(rd))]
 	}
 	x := cases[chosen]
